@@ -190,9 +190,15 @@ class ModuleAstInfo:
             )
             yield (full_scope_name, lineno)
 
-        for child in ast.iter_child_nodes(scope_node):
+        children = list(ast.iter_child_nodes(scope_node))
+        while children:
+            child = children.pop(0)
             if isinstance(child, ScopeNode):
                 yield from cls._get_scope_names(child, full_scope_name)
+            else:
+                # Definitions inside compound statements (if, try, with, ...) belong to
+                # this scope as well.
+                children[0:0] = ast.iter_child_nodes(child)
 
     @classmethod
     def _find_lines_in_ast(
